@@ -204,7 +204,7 @@ Proof.
   destruct pstr as [|c0 p0].
   - assert (toks = []) by (apply (parse_nil_iff [] toks Pp); reflexivity). subst toks.
     cbn [finish_add bind]. do 2 eexists. split; [reflexivity|]. cbn. split; [reflexivity|].
-    apply doc_eq_set_key. apply doc_eq_refl. exact Hit.
+    apply doc_eq_unnamed. apply doc_eq_refl. exact Hit.
   - destruct (finish_add_conform d1 it it (c0 :: p0) toks Hd1 Np ltac:(discriminate) Pp (doc_eq_refl _ Hit)) as (st & doc' & Efa & Hr).
     rewrite Efa. cbn [bind]. exists st, doc'. split; [reflexivity|].
     destruct (Rfc6902.add d1 toks it); [exact Hr | apply Hr].
